@@ -133,3 +133,98 @@ fn vc03_gate_no_keys() {
     kani::cover!(which == 0 && ep == 1);
     leak(r); leak(ctx); leak(inner); leak(record);
 }
+
+// ---------------------------------------------------------------------------------------
+// protected records: AEAD gate + dispatcher (symcrypto: XOR keystream, ideal MAC) -- de-asynced handlers
+// ---------------------------------------------------------------------------------------
+fn keyed_ctx(read_epoch: u16) -> (HandshakeContext, [u8; 16], [u8; 4]) {
+    let ck: [u8; 16] = kani::any(); let sk: [u8; 16] = kani::any(); let civ: [u8; 4] = kani::any(); let siv: [u8; 4] = kani::any();
+    let keys = SessionKeys { client_write_key: ck.to_vec(), server_write_key: sk.to_vec(), client_write_iv: civ.to_vec(), server_write_iv: siv.to_vec(),
+        master_secret: vec![0u8; 48], client_random: vec![0u8; 32], server_random: vec![0u8; 32] };
+    let mut ctx = lean_ctx(read_epoch, false);
+    ctx.epoch = 1; ctx.server_key_exchange_verified = true;
+    ctx.session_crypto = Some(create_session_crypto(keys.clone()).unwrap());
+    ctx.session_keys = Some(keys);
+    (ctx, sk, siv)
+}
+
+/// datagram with one genuine ApplicationData/Alert record from the server (we are the client), optionally with one
+/// altered byte, handed to the record loop
+fn protected_record(ct: ContentType, alter: Option<usize>) {
+    let inner = lean_inner(true);
+    *inner.state.lock() = DtlsState::Handshaking;
+    let (mut ctx, sk, siv) = keyed_ctx(1);
+    let seq: u64 = kani::any(); kani::assume(seq < (1 << 48));
+    let full_seq = (1u64 << 48) | seq;
+    let pl: [u8; 2] = if matches!(ct, ContentType::Alert) { [1, 0] } else { kani::any() }; // close_notify
+    let body = match encrypt_record(ct, ProtocolVersion::DTLS_1_2, full_seq, &pl, &sk, &siv) { Ok(b) => b, Err(_) => { assert!(false); return; } };
+    assert!(body.len() == 8 + 2 + 16);
+    let rec = DtlsRecord { content_type: ct, version: ProtocolVersion::DTLS_1_2, epoch: 1, sequence_number: seq, payload: Bytes::from(body) };
+    let mut wire = BytesMut::with_capacity(64);
+    rec.encode(&mut wire);
+    assert!(wire.len() == 13 + 26);
+    if let Some(pos) = alter { let x: u8 = kani::any(); kani::assume(x != 0); wire[pos] ^= x; }
+    let (app_tx, mut app_rx) = mpsc::unbounded_channel::<Bytes>();
+    let cert = Certificate { certificate: Vec::new(), private_key: String::new(), dtls_signing_key: None };
+    let r = inner.handle_incoming_packet(wire.freeze(), &mut ctx, &app_tx, &cert, true);
+    assert!(r.is_ok());
+    let got = app_rx.try_recv();
+    let closed = matches!(*inner.state.lock(), DtlsState::Closed);
+    if alter.is_none() {
+        match ct {
+            ContentType::ApplicationData => { match &got { Ok(b) => assert!(b.len() == 2 && b[0] == pl[0] && b[1] == pl[1], "authentic application data altered"), Err(_) => assert!(false, "authentic application data not delivered") } assert!(!closed); }
+            _ => { assert!(got.is_err()); assert!(closed, "authentic close_notify ignored"); }
+        }
+    } else {
+        assert!(got.is_err(), "bytes from a record that does not authenticate were handed to the upper layer");
+        assert!(!closed, "an alert that does not authenticate changed the connection state");
+        assert!(ctx.read_epoch == 1);
+    }
+    kani::cover!(seq == 5, "reached");
+    leak(got); leak(r); leak(ctx); leak(inner); leak(app_tx); leak(app_rx);
+}
+
+// @h name=vc03_aead_genuine_appdata tier=quick timeout=1200
+// @fn DtlsInner::handle_incoming_packet, DtlsRecord::decode, DtlsInner::try_decrypt_record, decrypt_record_with_cipher, make_aad, DtlsInner::handle_decrypted_record, encrypt_record
+// @bound client with negotiated keys (symbolic), read epoch 1; one datagram with one genuine epoch-1 ApplicationData record (2 symbolic plaintext bytes, symbolic 48-bit sequence number) built by the real encrypt_record with the server write key
+// @oracle the plaintext is delivered to the upper layer unaltered, exactly once; connection state unchanged (liveness witness for the rejection harnesses; also checks that sender-side and receiver-side nonce/AAD construction and key selection by role agree)
+#[kani::proof]
+#[kani::unwind(60)]
+#[kani::stub(std::backtrace::Backtrace::capture, bt_stub)]
+fn vc03_aead_genuine_appdata() { protected_record(ContentType::ApplicationData, None) }
+
+// @h name=vc03_aead_forged_appdata_body tier=quick timeout=1200
+// @fn DtlsInner::handle_incoming_packet, DtlsInner::try_decrypt_record, decrypt_record_with_cipher
+// @bound as vc03_aead_genuine_appdata with byte 22 of the datagram (first ciphertext byte) XORed with a symbolic non-zero value
+// @oracle nothing is delivered, state and read epoch unchanged (ideal-MAC model: acceptance would mean the byte is not covered by the AEAD or the verdict is ignored)
+#[kani::proof]
+#[kani::unwind(60)]
+#[kani::stub(std::backtrace::Backtrace::capture, bt_stub)]
+fn vc03_aead_forged_appdata_body() { protected_record(ContentType::ApplicationData, Some(21)) }
+
+// @h name=vc03_aead_forged_header_seq tier=quick timeout=1200
+// @fn DtlsInner::handle_incoming_packet, make_aad
+// @bound as above with byte 10 of the datagram (record sequence number, part of the AAD) altered
+// @oracle nothing is delivered, state unchanged
+#[kani::proof]
+#[kani::unwind(60)]
+#[kani::stub(std::backtrace::Backtrace::capture, bt_stub)]
+fn vc03_aead_forged_header_seq() { protected_record(ContentType::ApplicationData, Some(10)) }
+
+// @h name=vc03_aead_forged_alert tier=thorough timeout=1200
+// @fn DtlsInner::handle_incoming_packet, DtlsInner::handle_decrypted_record
+// @bound genuine protected close_notify alert with its tag's last byte altered; and (second harness) unaltered
+// @oracle the altered alert does not close the connection
+#[kani::proof]
+#[kani::unwind(60)]
+#[kani::stub(std::backtrace::Backtrace::capture, bt_stub)]
+fn vc03_aead_forged_alert() { protected_record(ContentType::Alert, Some(38)) }
+
+// @h name=vc03_aead_genuine_alert tier=thorough timeout=1200
+// @fn DtlsInner::handle_incoming_packet, DtlsInner::handle_decrypted_record
+// @bound genuine protected close_notify alert
+// @oracle the connection state becomes Closed
+#[kani::proof]
+#[kani::unwind(60)]
+#[kani::stub(std::backtrace::Backtrace::capture, bt_stub)]
+fn vc03_aead_genuine_alert() { protected_record(ContentType::Alert, None) }
